@@ -2,6 +2,7 @@ import MqttVerif.Driver.AllocDrv
 import MqttVerif.Driver.FrameDrv
 import MqttVerif.Driver.ConnDrv
 import MqttVerif.Driver.TablesDrv
+import MqttVerif.Driver.CodecDrv
 /-!
 `mqttdrv` — reads a trace (produced by the Rust harness running the real code) on stdin,
 replays every call through the Lean model, evaluates the property monitors on the
@@ -18,6 +19,7 @@ inductive Mode
   | frame (st : FrameSt)
   | conn (run : ConnRun)
   | tables (name : String)
+  | codec (st : CodecSt)
 
 partial def loop (h : IO.FS.Stream) (ln : Nat) (m : Mode) (r : Report) : IO Report := do
   let raw ← h.getLine
@@ -38,6 +40,8 @@ partial def loop (h : IO.FS.Stream) (ln : Nat) (m : Mode) (r : Report) : IO Repo
       loop h (ln + 1) (.frame { name := name }) { r with traces := r.traces + 1 }
     | _ :: "tables" :: name :: _ =>
       loop h (ln + 1) (.tables name) { r with traces := r.traces + 1 }
+    | _ :: "codec" :: name :: _ =>
+      loop h (ln + 1) (.codec { name := name }) { r with traces := r.traces + 1 }
     | _ => loop h (ln + 1) .none (r.mdiff "parse" s!"line {ln}: bad trace header `{line}`")
   else
     match m with
@@ -69,6 +73,18 @@ partial def loop (h : IO.FS.Stream) (ln : Nat) (m : Mode) (r : Report) : IO Repo
     | .tables name =>
       if line = "END" then loop h (ln + 1) .none r
       else loop h (ln + 1) m (tablesLine name ln line r)
+    | .codec st =>
+      if line = "END" then loop h (ln + 1) .none (codecEnd st r)
+      else if line.startsWith "P " then
+        let (st', r') := codecP st ln line r
+        loop h (ln + 1) (.codec st') r'
+      else if line.startsWith "B " then
+        let (st', r') := codecB st ln line r
+        loop h (ln + 1) (.codec st') r'
+      else if line.startsWith "E " then
+        let (st', r') := codecE st line r
+        loop h (ln + 1) (.codec st') r'
+      else loop h (ln + 1) m (r.mdiff "parse" s!"line {ln}: unexpected `{line.take 100}`")
 
 /-- `mqttdrv cells`: print the deviating cells of a `harness tables cells` output -/
 partial def cellsLoop (h : IO.FS.Stream) (n : Nat) : IO Nat := do
